@@ -179,14 +179,8 @@ Section ServerProofs.
   Proof.
     unfold new_chunk_from_storage. destruct skip.
     - intros [= <-]. repeat split.
-    - set (c0 := {| ch_data := []; ch_storage := b; ch_conv := cs; ch_id := i; ch_idcalc := false |}).
-      destruct (N.eqb (chunk_id H zdecomp c0) i) eqn:E; [|discriminate]. apply N.eqb_eq in E.
-      intros [= <-]. split; [|split; reflexivity].
-      unfold chunk_id in *. cbn [ch_idcalc ch_id] in *.
-      destruct (chunk_data zdecomp c0) eqn:Ed; [reflexivity|].
-      (* decoding failed: the id is computed again from the same storage and is the zero id again *)
-      cbn [ch_idcalc]. subst c0. unfold chunk_data in *. cbn [ch_data ch_storage ch_conv ch_idcalc nonempty] in *.
-      rewrite Ed. exact E.
+    - destruct (chunk_data zdecomp _) as [d|]; [|discriminate].
+      destruct (N.eqb (H d) i); [|discriminate]. intros [= <-]. repeat split.
   Qed.
 
   Lemma new_chunk_data i b cs skip ch :
@@ -194,19 +188,21 @@ Section ServerProofs.
     chunk_data zdecomp ch = if nonempty b then from_storage zdecomp cs b else None.
   Proof.
     unfold new_chunk_from_storage. destruct skip; [intros [= <-]; reflexivity|].
-    destruct (N.eqb _ i); [|discriminate]. intros [= <-].
-    unfold chunk_data. cbn [ch_data ch_storage ch_conv nonempty].
-    destruct (nonempty b); [|reflexivity].
-    destruct (from_storage zdecomp cs b) as [d0|]; [|reflexivity].
-    destruct (nonempty d0) eqn:End; [reflexivity|]. reflexivity.
+    unfold chunk_data at 1. cbn [ch_data ch_storage ch_conv nonempty].
+    destruct (nonempty b) eqn:Enb; [|discriminate].
+    destruct (from_storage zdecomp cs b) as [d0|] eqn:Ef; [|discriminate].
+    destruct (N.eqb (H d0) i); [|discriminate]. intros [= <-].
+    unfold chunk_data. cbn [ch_data ch_storage ch_conv].
+    destruct (nonempty d0) eqn:End; [reflexivity|]. now rewrite Enb, Ef.
   Qed.
 
   Lemma new_chunk_verified i b cs ch :
     new_chunk_from_storage H zdecomp i b cs false = Some ch ->
-    match (if nonempty b then from_storage zdecomp cs b else None) with Some d => H d | None => zero_id end = i.
+    exists d, (if nonempty b then from_storage zdecomp cs b else None) = Some d /\ H d = i.
   Proof.
-    unfold new_chunk_from_storage.
-    destruct (N.eqb _ i) eqn:E; [|discriminate]. intros _. apply N.eqb_eq in E. exact E.
+    unfold new_chunk_from_storage, chunk_data. cbn [ch_data ch_storage ch_conv nonempty].
+    destruct (if nonempty b then from_storage zdecomp cs b else None) as [d|]; [|discriminate].
+    destruct (N.eqb (H d) i) eqn:E; [|discriminate]. intros _. apply N.eqb_eq in E. now exists d.
   Qed.
 
   Lemma lookup_update_other {B} i j (v : B) m : j <> i -> lookup j (update i v m) = lookup j m.
@@ -277,8 +273,8 @@ Section ServerProofs.
     destruct (nonempty (r_body r)) eqn:Enb; [|discriminate].
     repeat split; try assumption; try (symmetry; exact Edata).
     - intros Eb. rewrite Eb in Enb. discriminate.
-    - intros Hskip. rewrite Hskip in Ech. apply new_chunk_verified in Ech.
-      rewrite Enb, <- Edata in Ech. exact Ech.
+    - intros Hskip. rewrite Hskip in Ech. apply new_chunk_verified in Ech as [d' [Ed' Hh]].
+      rewrite Enb in Ed'. rewrite <- Edata in Ed'. injection Ed' as <-. exact Hh.
   Qed.
 
   (* The answer depends on the store only through the file of the requested id. *)
